@@ -176,12 +176,282 @@ Proof.
       - specialize (Ht0 eq_refl). subst ovf' acc'. cbn [orb]. split; [discriminate|]. intros _. nia.
       - destruct (Hf0 eq_refl) as [-> Hle]. subst acc'. subst ovf'. cbn [orb].
         rewrite (cutoff_iff z b d lim) by lia.
-        destruct (Z.gtb_spec (z * b + d) lim) as [G|G]; split; intros; try discriminate; try lia.
-        split; [reflexivity|lia]. }
+        destruct (Z.gtb_spec (z * b + d) lim) as [G|G].
+        + split; [discriminate | intros _; lia].
+        + split; [intros _; split; [reflexivity|lia] | discriminate]. }
     specialize (IH (pre ++ [c]) fuel acc' ovf' (z * b + d) Hr).
-    rewrite Etd in IH. cbn [fst] in IH.
+    cbn [fst] in IH.
     rewrite app_length in IH. cbn [length] in IH. rewrite <- app_assoc in IH. cbn [app] in IH.
     unfold cstr in IH. destruct IH as (a2 & o2 & E2 & R2); [simpl in Hf; lia | exact Hrep' |].
     exists a2, o2. replace (S (length pre)) with (length pre + 1)%nat by lia. rewrite E2.
     split; [f_equal; f_equal; f_equal; lia | exact R2].
+Qed.
+
+(* ---- sign and base selection ---- *)
+Lemma cstr_app pre l : cstr (pre ++ l) = pre ++ cstr l.
+Proof. unfold cstr. rewrite <- app_assoc. reflexivity. Qed.
+
+Lemma split_sign_split s0 neg s1 :
+  split_sign s0 = (neg, s1) -> exists p, s0 = p ++ s1 /\ (length p <= 1)%nat.
+Proof.
+  unfold split_sign. destruct s0 as [|c r]; intros H.
+  - inversion H; subst. exists []. split; [reflexivity|simpl; lia].
+  - destruct (c =? 45)%N; [inversion H; subst; exists [c]; split; [reflexivity|simpl; lia]|].
+    destruct (c =? 43)%N; inversion H; subst; [exists [c] | exists []]; split; try reflexivity; simpl; lia.
+Qed.
+
+Lemma select_base_split base s1 b s2 :
+  select_base base s1 = (b, s2) -> exists p, s1 = p ++ s2.
+Proof.
+  unfold select_base. intros H.
+  destruct s1 as [|z [|x [|h r]]]; try (inversion H; subst; exists []; reflexivity).
+  destruct ((z =? 48)%N && ((x =? 120)%N || (x =? 88)%N) && base16_ok base &&
+            match digit_in 16 h with Some _ => true | None => false end);
+    inversion H; subst; [exists [z; x] | exists []]; reflexivity.
+Qed.
+
+Lemma strto_base_correct pre1 s1 base :
+  bytes_ok s1 -> no_nul s1 -> base_ok base ->
+  exists b s2 pre2,
+    select_base base s1 = (b, s2) /\ s1 = pre2 ++ s2 /\ 2 <= b <= 36 /\
+    strto_base (pre1 ++ cstr s1) base (length pre1) = Ok (b, (length pre1 + length pre2)%nat).
+Proof.
+  intros Hb Hn Hbase. unfold strto_base, select_base.
+  replace (S (S (length pre1))) with (length pre1 + 2)%nat by lia.
+  replace (S (length pre1)) with (length pre1 + 1)%nat by lia.
+  rewrite rd_pre0, !rd_pre.
+  assert (forall (P : Z -> Prop), P base -> P base) as _ by auto.
+  assert (2 <= (if base =? 0 then 10 else base) <= 36) as B10
+      by (destruct (Z.eqb_spec base 0); unfold base_ok in Hbase; lia).
+  assert (2 <= (if base =? 0 then 8 else base) <= 36) as B8
+      by (destruct (Z.eqb_spec base 0); unfold base_ok in Hbase; lia).
+  assert (~ base = 0 -> 2 <= base <= 36) as Bn by (unfold base_ok in Hbase; lia).
+  destruct s1 as [|z r1].
+  - (* nothing after the sign *)
+    unfold cstr. cbn [app rd nth_error bind]. change (0 =? 48)%N with false. cbv iota.
+    exists (if base =? 0 then 10 else base), [], []. repeat split; try lia.
+    f_equal. f_equal. simpl. lia.
+  - destruct (bytes_ok_cons _ _ Hb) as [Hz Hb1]. destruct (no_nul_cons _ _ Hn) as [Hz0 Hn1].
+    unfold cstr. cbn [app rd nth_error bind].
+    destruct (N.eqb_spec z 48) as [Ez|Ez].
+    2:{ (* not a leading zero: no prefix, decimal for base 0 *)
+      exists (if base =? 0 then 10 else base), (z :: r1), [].
+      split.
+      { destruct r1 as [|x [|h r]]; reflexivity. }
+      repeat split; try lia. f_equal. f_equal. simpl. lia. }
+    subst z. unfold base16_ok.
+    destruct ((base =? 0) || (base =? 16)) eqn:E16.
+    2:{ (* leading zero in a base without prefix *)
+      apply orb_false_iff in E16. destruct E16 as [E0 E6]. rewrite E0.
+      apply Z.eqb_neq in E0. exists base, (48%N :: r1), []. split.
+      { destruct r1 as [|x [|h r]]; try reflexivity. rewrite andb_false_r. cbn [andb]. reflexivity. }
+      repeat split; try (apply Bn; exact E0). f_equal. f_equal. simpl. lia. }
+    destruct r1 as [|x r2].
+    { (* "0" alone *)
+      cbn [app rd nth_error bind]. change (is_x 0) with false. cbv iota.
+      exists (if base =? 0 then 8 else base), [48%N], []. repeat split; try lia.
+      f_equal. f_equal. simpl. lia. }
+    destruct (bytes_ok_cons _ _ Hb1) as [Hx Hb2]. destruct (no_nul_cons _ _ Hn1) as [Hx0 Hn2].
+    cbn [app rd nth_error bind]. unfold is_x.
+    destruct ((x =? 120)%N || (x =? 88)%N) eqn:Ex.
+    2:{ (* "0" followed by something that is not x: octal for base 0 *)
+      exists (if base =? 0 then 8 else base), (48%N :: x :: r2), []. split.
+      { destruct r2 as [|h r]; reflexivity. }
+      repeat split; try lia. f_equal. f_equal. simpl. lia. }
+    destruct r2 as [|h r3].
+    { (* "0x" at the end of the string *)
+      cbn [app rd nth_error bind]. change (is_hex 0) with false. cbv iota.
+      exists (if base =? 0 then 8 else base), [48%N; x], []. repeat split; try lia.
+      f_equal. f_equal. simpl. lia. }
+    destruct (bytes_ok_cons _ _ Hb2) as [Hh Hb3].
+    cbn [app rd nth_error bind]. rewrite (is_hex_spec h Hh). cbn [andb].
+    destruct (digit_in 16 h) as [dh|].
+    + (* prefix taken *)
+      exists 16, (h :: r3), [48%N; x]. repeat split; try lia.
+    + exists (if base =? 0 then 8 else base), (48%N :: x :: h :: r3), []. repeat split; try lia.
+      f_equal. f_equal. simpl. lia.
+Qed.
+
+(* what the front part of the model computes, in terms of the spec's functions *)
+Lemma strto_front_correct s base :
+  bytes_ok s -> no_nul s -> base_ok base ->
+  exists neg s1 b s2 pre,
+    split_sign (drop_blanks s) = (neg, s1) /\ select_base base s1 = (b, s2) /\
+    s = pre ++ s2 /\ 2 <= b <= 36 /\
+    strto_front (cstr s) base = Ok (neg, b, length pre).
+Proof.
+  intros Hb Hn Hbase. unfold strto_front.
+  pose proof (skip_ws_correct s [] (S (length (cstr s))) Hb) as Hsk.
+  cbn [app length] in Hsk. rewrite Hsk by (unfold cstr; rewrite app_length; simpl; lia). clear Hsk.
+  cbn [bind Nat.add].
+  pose proof (drop_blanks_split s) as Hsplit. pose proof (length_firstn_blanks s) as Hbl.
+  remember (firstn (count_blanks s) s) as bl eqn:Ebl. remember (drop_blanks s) as s0 eqn:Es0'.
+  rewrite <- Hbl. clear Ebl Es0' Hbl. subst s.
+  destruct (bytes_ok_app _ _ Hb) as [_ Hb0]. destruct (no_nul_app _ _ Hn) as [_ Hn0].
+  rewrite cstr_app. rewrite rd_pre0.
+  destruct s0 as [|c r0] eqn:Es0.
+  - (* only blanks *)
+    unfold cstr at 1. cbn [app rd nth_error bind]. change (0 =? 45)%N with false. change (0 =? 43)%N with false.
+    cbn [orb]. cbv iota.
+    destruct (strto_base_correct bl [] base Hb0 Hn0 Hbase) as (b & s2 & pre2 & E1 & E2 & E3 & E4).
+    rewrite E4. cbn [bind]. exists false, [], b, s2, (bl ++ pre2).
+    split; [reflexivity|]. split; [exact E1|]. split; [rewrite E2, app_assoc; reflexivity|].
+    split; [exact E3|]. rewrite app_length. reflexivity.
+  - destruct (bytes_ok_cons _ _ Hb0) as [Hc Hb1]. destruct (no_nul_cons _ _ Hn0) as [Hc0 Hn1].
+    unfold cstr at 1. cbn [app rd nth_error bind]. unfold split_sign.
+    destruct (c =? 45)%N eqn:E45; [|destruct (c =? 43)%N eqn:E43]; cbn [orb]; cbv iota.
+    + destruct (strto_base_correct (bl ++ [c]) r0 base Hb1 Hn1 Hbase) as (b & s2 & pre2 & E1 & E2 & E3 & E4).
+      rewrite app_length in E4. cbn [length] in E4. rewrite <- app_assoc in E4. cbn [app] in E4.
+      replace (S (length bl)) with (length bl + 1)%nat by lia. unfold cstr in E4 |- *. cbn [app] in E4 |- *. rewrite E4. cbn [bind].
+      exists true, r0, b, s2, (bl ++ c :: pre2).
+      split; [reflexivity|]. split; [exact E1|]. split; [rewrite E2, <- app_assoc; reflexivity|].
+      split; [exact E3|]. rewrite app_length. cbn [length]. f_equal. f_equal. lia.
+    + destruct (strto_base_correct (bl ++ [c]) r0 base Hb1 Hn1 Hbase) as (b & s2 & pre2 & E1 & E2 & E3 & E4).
+      rewrite app_length in E4. cbn [length] in E4. rewrite <- app_assoc in E4. cbn [app] in E4.
+      replace (S (length bl)) with (length bl + 1)%nat by lia. unfold cstr in E4 |- *. cbn [app] in E4 |- *. rewrite E4. cbn [bind].
+      exists false, r0, b, s2, (bl ++ c :: pre2).
+      split; [reflexivity|]. split; [exact E1|]. split; [rewrite E2, <- app_assoc; reflexivity|].
+      split; [exact E3|]. rewrite app_length. cbn [length]. f_equal. f_equal. lia.
+    + destruct (strto_base_correct bl (c :: r0) base Hb0 Hn0 Hbase) as (b & s2 & pre2 & E1 & E2 & E3 & E4).
+      unfold cstr in E4 |- *. cbn [app] in E4 |- *. rewrite E4. cbn [bind].
+      exists false, (c :: r0), b, s2, (bl ++ pre2).
+      split; [reflexivity|]. split; [exact E1|]. split; [rewrite E2, app_assoc; reflexivity|].
+      split; [exact E3|]. rewrite app_length. reflexivity.
+Qed.
+
+(* ---- the two functions ---- *)
+(* value, index of the end pointer (0 = no conversion), ERANGE raised *)
+Definition strtou_spec (base : Z) (s : list N) : Z * nat * bool :=
+  match numeral base (drop_blanks s) with
+  | None => (0, 0%nat, false)
+  | Some (neg, v, rest) =>
+    let e := (length s - length rest)%nat in
+    if v >? UMAX then (UMAX, e, true)
+    else ((if neg then (two64 - v) mod two64 else v), e, false)
+  end.
+
+Definition strtoi_spec (base : Z) (s : list N) : Z * nat * bool :=
+  match numeral base (drop_blanks s) with
+  | None => (0, 0%nat, false)
+  | Some (neg, v, rest) =>
+    let e := (length s - length rest)%nat in
+    if v >? (if neg then - IMIN else IMAX) then ((if neg then IMIN else IMAX), e, true)
+    else ((if neg then - v else v), e, false)
+  end.
+
+(* common part: run the digit loop after the front part and compare with the grammar *)
+Lemma strto_digits s base lim :
+  bytes_ok s -> no_nul s -> base_ok base -> 0 <= lim ->
+  exists neg b (pre : list N),
+    strto_front (cstr s) base = Ok (neg, b, length pre) /\
+    exists j acc ovf,
+      digits_loop (S (length (cstr s))) (cstr s) (length pre) b lim 0 false = Ok (j, acc, ovf) /\
+      match numeral base (drop_blanks s) with
+      | None => j = length pre
+      | Some (neg', v, rest) =>
+        neg' = neg /\ j <> length pre /\ j = (length s - length rest)%nat /\ repr lim acc ovf v
+      end.
+Proof.
+  intros Hb Hn Hbase Hl.
+  destruct (strto_front_correct s base Hb Hn Hbase) as (neg & s1 & b & s2 & pre & E1 & E2 & E3 & E4 & E5).
+  exists neg, b, pre. split; [exact E5|].
+  subst s. destruct (bytes_ok_app _ _ Hb) as [_ Hb2].
+  assert (repr lim 0 false 0) as R0 by (unfold repr; repeat split; try lia; discriminate).
+  rewrite cstr_app.
+  destruct (digits_loop_correct b lim s2 pre (S (length (pre ++ cstr s2))) 0 false 0 E4 Hl Hb2) as (acc & ovf & Ed & Rep).
+  { unfold cstr. rewrite !app_length. simpl. lia. }
+  { exact R0. }
+  rewrite Ed. eexists _, acc, ovf. split; [reflexivity|].
+  unfold numeral. rewrite E1, E2.
+  destruct (take_digits_split b s2) as [T1 T2].
+  destruct (take_digits b s2) as [ds rest]. cbn [fst snd] in *.
+  destruct ds as [|d ds'].
+  - simpl in T2. rewrite <- T2. lia.
+  - cbn [length] in T2. split; [reflexivity|]. split; [lia|]. split.
+    + assert (length s2 = (count_digits b s2 + length rest)%nat) as L.
+      { rewrite T1 at 1. rewrite app_length, firstn_length_le by apply count_digits_le. reflexivity. }
+      rewrite app_length. lia.
+    + exact Rep.
+Qed.
+
+Theorem strtoumax_correct s base :
+  bytes_ok s -> no_nul s -> base_ok base ->
+  strtoumax_m (cstr s) base = Ok (strtou_spec base s).
+Proof.
+  intros Hb Hn Hbase.
+  destruct (strto_digits s base UMAX Hb Hn Hbase ltac:(unfold UMAX; lia))
+    as (neg & b & pre & Ef & j & acc & ovf & Ed & Hnum).
+  unfold strtoumax_m, strtou_spec. rewrite Ef. cbn [bind]. rewrite Ed. cbn [bind].
+  destruct (numeral base (drop_blanks s)) as [[[neg' v] rest]|].
+  - destruct Hnum as (-> & Hj & Hje & Hz & Hf & Ht).
+    destruct (Nat.eqb_spec j (length pre)); [contradiction|]. subst j.
+    destruct ovf.
+    + specialize (Ht eq_refl). destruct (Z.gtb_spec v UMAX); [reflexivity|lia].
+    + destruct (Hf eq_refl) as [-> Hle]. destruct (Z.gtb_spec v UMAX); [lia|reflexivity].
+  - subst j. rewrite Nat.eqb_refl. reflexivity.
+Qed.
+
+Theorem strtoimax_correct s base :
+  bytes_ok s -> no_nul s -> base_ok base ->
+  strtoimax_m (cstr s) base = Ok (strtoi_spec base s).
+Proof.
+  intros Hb Hn Hbase.
+  unfold strtoimax_m, strtoi_spec.
+  destruct (strto_front_correct s base Hb Hn Hbase) as (neg0 & s1 & b0 & s2 & pre0 & _ & _ & _ & _ & Ef0).
+  destruct (strto_digits s base (if neg0 then - IMIN else IMAX) Hb Hn Hbase
+              ltac:(destruct neg0; unfold IMIN, IMAX; lia))
+    as (neg & b & pre & Ef & j & acc & ovf & Ed & Hnum).
+  rewrite Ef in Ef0. inversion Ef0; subst neg0. clear Ef0 s1 s2.
+  rewrite Ef. cbn [bind]. rewrite Ed. cbn [bind].
+  destruct (numeral base (drop_blanks s)) as [[[neg' v] rest]|].
+  - destruct Hnum as (-> & Hj & Hje & Hz & Hf & Ht).
+    destruct (Nat.eqb_spec j (length pre)); [contradiction|]. subst j.
+    destruct ovf.
+    + specialize (Ht eq_refl). destruct (Z.gtb_spec v (if neg then - IMIN else IMAX)); [reflexivity|lia].
+    + destruct (Hf eq_refl) as [-> Hle].
+      destruct (Z.gtb_spec v (if neg then - IMIN else IMAX)); [lia|reflexivity].
+  - subst j. rewrite Nat.eqb_refl. reflexivity.
+Qed.
+
+(* ---- facts about the grammar needed by the users of these theorems ---- *)
+Lemma value_of_nonneg b ds : 0 <= b -> Forall (fun d => 0 <= d) ds -> forall z, 0 <= z ->
+  0 <= fold_left (fun a d => a * b + d) ds z.
+Proof.
+  intros Hb H. induction H as [|d r Hd Hr IH]; intros z Hz; cbn [fold_left]; [exact Hz|].
+  apply IH. nia.
+Qed.
+
+Lemma numeral_shape base s neg v rest :
+  bytes_ok s -> numeral base (drop_blanks s) = Some (neg, v, rest) ->
+  exists p, s = p ++ rest /\ p <> [] /\
+            (neg = true <-> exists r, drop_blanks s = 45%N :: r).
+Proof.
+  intros Hb. unfold numeral.
+  destruct (split_sign (drop_blanks s)) as [ng s1] eqn:E1.
+  destruct (select_base base s1) as [b s2] eqn:E2.
+  destruct (take_digits_split b s2) as [T1 T2].
+  destruct (take_digits b s2) as [ds rs]. cbn [fst snd] in *.
+  destruct ds as [|d ds']; [discriminate|]. intros H. inversion H; subst ng rs. clear H.
+  destruct (split_sign_split _ _ _ E1) as (p1 & P1 & _).
+  destruct (select_base_split _ _ _ _ E2) as (p2 & P2).
+  exists (firstn (count_blanks s) s ++ p1 ++ p2 ++ firstn (count_digits b s2) s2).
+  split; [|split].
+  - rewrite (drop_blanks_split s) at 1. rewrite P1, P2. rewrite T1 at 1. rewrite <- !app_assoc. reflexivity.
+  - cbn [length] in T2. intros Hnil. apply (f_equal (@length N)) in Hnil. rewrite !app_length in Hnil.
+    rewrite (firstn_length_le s2) in Hnil by apply count_digits_le. simpl in Hnil. lia.
+  - unfold split_sign in E1. destruct (drop_blanks s) as [|c r].
+    + inversion E1; subst. split; [discriminate | intros [r Hr]; discriminate].
+    + destruct (N.eqb_spec c 45).
+      * inversion E1; subst. split; [intros _; eexists; reflexivity | reflexivity].
+      * assert (neg = false) as -> by (destruct (c =? 43)%N; inversion E1; reflexivity).
+        split; [discriminate | intros [r' Hr]; inversion Hr; contradiction].
+Qed.
+
+Lemma numeral_value_nonneg base s neg v rest :
+  bytes_ok s -> no_nul s -> base_ok base ->
+  numeral base (drop_blanks s) = Some (neg, v, rest) -> 0 <= v.
+Proof.
+  intros Hb Hn Hbase E.
+  destruct (strto_digits s base 0 Hb Hn Hbase ltac:(lia)) as (ng & b & pre & _ & j & acc & ovf & _ & Hnum).
+  rewrite E in Hnum. destruct Hnum as (_ & _ & _ & Hz & _). exact Hz.
 Qed.
